@@ -504,3 +504,13 @@ Theorem C01_translated_loops_end_iff_full : forall w : GoLiteAggregation.aworld,
   (exists o, GoLiteAggregation.run_case "Manager.lazyAggregationLoop$txNotifyCh" w = Some o /\ ProducerLoopTranslated.case_ends o = false).
 Proof. exact ProducerLoopTranslated.translated_loops_end_iff. Qed.
 Print Assumptions C01_translated_loops_end_iff_full.
+
+(* ---- the start of NewManager TRANSLATED FROM THE SOURCE (Check/GoLiteStartup.v, regenerated on every run) ----------
+   Whenever the initial state was obtained, the start-up asks the store to set its height to EXACTLY the state's
+   LastBlockHeight, in every world (go_NewManager_start gives the complete call sequence): the write by which a
+   start-up repairs a process that died between the state write and the height write of a block. *)
+From Verif Require Check.GoLiteStartup.
+Theorem C01_translated_startup_sets_the_height_full : forall w : GoLiteStartup.nworld,
+  GoLiteStartup.n_init_ok w = true -> In (GoLiteStartup.height_call w) (snd (GoLiteStartup.start_expect w)).
+Proof. exact GoLiteStartup.startup_always_sets_the_height. Qed.
+Print Assumptions C01_translated_startup_sets_the_height_full.
